@@ -14,7 +14,8 @@ def check(tier, seed):
         "COO representation of a sparse right-hand side is canonical (no duplicate entries)",
     ]
     d.not_decided += [
-        "direct_greens_function / _constrain_matrix, _group_close_energies and the KPM solver are not under deductive contract: they are covered by the bounded "
+        "kpm.greens_function: loop-exit postcondition proved for any number of iterations (residual of the returned vector <= atol unless a RuntimeWarning was issued); "
+        "direct_greens_function / _constrain_matrix, _group_close_energies and solve_sylvester_KPM's rescaling are not under deductive contract: they are covered by the bounded "
         "battery section 'solvers' only (scipy LU, KDTree / argsort grouping, KPM convergence are external); solve_sylvester_direct is under a structural contract "
         "(which Green's function serves which level / row, projections, sign), its numerical content rests on direct_greens_function; "
         "KPM accuracy is a numerical-analysis statement outside this technique",
